@@ -1,5 +1,5 @@
 (* C13 — all storage backends, and a reopened database, behave identically. *)
-From TSS Require Import Seq proofs.Inv proofs.Agree proofs.Pure.
+From TSS Require Import Seq AStore L0 InMem Sqlite proofs.RefineSqlite proofs.RefineInMem proofs.Inv proofs.Agree proofs.Pure proofs.L0Props.
 
 (* the same history yields the same responses on the in-memory and the SQLite model (ids are
    supplied by the environment; times are whole seconds in the model) *)
@@ -17,3 +17,22 @@ Theorem C13_reopen_noop : forall k cfg h,
   responses k cfg (filter (fun oe => not_reopen (fst oe)) h) =
   map snd (filter (fun x => not_reopen (fst (fst x))) (combine h (responses k cfg h))).
 Proof. exact reopen_noop. Qed.
+
+(* the storage interface call by call (what the storage-trait rig runs against the real backends):
+   for ANY sequence of the eight StorageTxn calls inside one transaction — sequences the server
+   never issues included — as long as the sequence stays inside the storage contract (the abstract
+   store is not poisoned), the in-memory model and the SQLite table model give the same answer to
+   every call, from any pair of stores that represent the same abstract store *)
+Theorem C13_storage_calls_backends_agree : forall a (s1 : b_st InMemB) (s2 : b_st SqliteB) cid cs,
+  Rs_im a s1 -> Rs_sq a s2 -> a_ok (snd (l0_txn AStoreB a cid cs)) = true ->
+  fst (l0_txn InMemB s1 cid cs) = fst (l0_txn SqliteB s2 cid cs).
+Proof. exact storage_calls_backends_agree. Qed.
+
+(* non-vacuity: a transaction that creates a client, adds two versions, stores a snapshot, reads
+   everything back and commits is inside the contract *)
+Example C13_storage_calls_nonvacuous :
+  a_ok (snd (l0_txn AStoreB a_empty 1%N
+    [CGetClient; CNewClient 0%N; CAddVersion 2%N 0%N [1%N]; CAddVersion 3%N 2%N [2%N];
+     CSetSnapshot (mkSnap 2%N 0%Z 0%N) [9%N]; CGetSnapshotData 2%N; CGetByParent 0%N; CGetVersion 3%N; CCommit])) = true /\
+  Rs_im a_empty im_empty /\ Rs_sq a_empty sq_empty.
+Proof. split; [vm_compute; reflexivity|]. split; [exact Rs_im_empty|exact Rs_sq_empty]. Qed.
